@@ -15,6 +15,8 @@
 #include <thread>
 #include <sstream>
 #include <zlib.h>
+#include <dirent.h>
+#include <sys/stat.h>
 #include "../sim/runner.h"
 #include "wire_proto.h"
 
@@ -208,7 +210,18 @@ struct E1 : Engine {
 			std::string v = rnd_token(r,0,20); if(r.below(3)==0) v += (v.empty() ? "x " : " ") + rnd_token(r,1,6) + "; q=0." + std::to_string(r.below(10)) + ", \"quoted \\\" str\" (comment)"; h.push(v); hs.push(h); }
 		q["headers"] = hs;
 		J cs = J::arr(); int nc = r.below(4); for(int i=0;i<nc;i++){ J c = J::arr(); c.push(rnd_token(r,1,6) + std::to_string(i)); c.push(rnd_token(r,0,12)); c.push((int)(r.below(3)==0)); cs.push(c); } q["cookies"] = cs;
-		if(m == "POST" || m == "PUT"){ unsigned x = r.below(10); size_t maxb = thorough ? 262144 : 65536;
+		if((m == "POST" || m == "PUT") && (prop == "C12" ? r.below(10) < 8 : r.below(10) == 0)){
+			static const char bal[] = "abcdefghijklmnopqrstuvwxyzABCDEFGHIJKLMNOPQRSTUVWXYZ0123456789-_"; int bl = 1 + r.below(r.below(3) ? 30 : 70); std::string bnd; for(int i=0;i<bl;i++) bnd += bal[r.below(sizeof(bal)-1)]; if(r.below(6) == 0) bnd = "-" + bnd; if(bnd.size() > 70) bnd.resize(70);
+			q["body_kind"] = "multipart"; q["boundary"] = bnd; q["content_type"] = "multipart/form-data; boundary=" + bnd;
+			J parts = J::arr(); int np = r.below(prop == "C12" ? 9 : 4); size_t budget = thorough ? 300000 : 60000;
+			for(int i=0;i<np;i++){ J pt = J::obj(); pt["name"] = rnd_token(r,1,10) + std::to_string(i); pt["quoted"] = (int)(r.below(4) != 0); bool file = r.below(2);
+				if(file){ pt["filename"] = r.below(5) ? rnd_token(r,1,12) + ".bin" : std::string(""); pt["has_filename"] = 1; static const char *cts[] = {"application/octet-stream","text/plain","image/png","text/plain; charset=utf-8"}; pt["ctype"] = cts[r.below(4)]; }
+				unsigned x = r.below(10); size_t len = x < 5 ? r.below(200) : x < 8 ? r.below(5000) : r.below(budget); if(len > budget) len = budget; budget -= len; if(!file && len > 3000) len = r.below(3000);
+				pt["len"] = (long long)len; pt["seed"] = (long long)r.below(1000000); pt["fill"] = (int)(r.below(3) == 0 ? 2 : r.below(2)); pt["lookalike"] = (int)r.below(4);
+				parts.push(pt); }
+			q["parts"] = parts;
+		}
+		else if(m == "POST" || m == "PUT"){ unsigned x = r.below(10); size_t maxb = thorough ? 262144 : 65536;
 			if(x < 4){ std::string b; int n = r.below(8); for(int i=0;i<n;i++){ if(i) b += "&"; b += rnd_token(r,1,6) + "=" + rnd_urlenc(r,30); } q["body_kind"] = "form"; q["body"] = b; q["content_type"] = "application/x-www-form-urlencoded"; }
 			else if(x < 9){ size_t len = r.below(4) == 0 ? r.below(maxb) : r.below(3000); q["body_kind"] = "raw"; q["body_len"] = (long long)len; q["body_seed"] = (long long)r.below(1000000); q["body_fill"] = (int)r.below(3); q["content_type"] = r.below(2) ? "application/octet-stream" : "text/plain; charset=utf-8"; }
 			else { q["body_kind"] = "raw"; q["body_len"] = 0; q["body_seed"] = 1; q["content_type"] = "application/octet-stream"; } }
@@ -223,6 +236,20 @@ struct E1 : Engine {
 		r.content_type = q.gets("content_type");
 		std::string bk = q.gets("body_kind");
 		if(bk == "form"){ r.has_body = true; r.body = q.gets("body"); }
+		else if(bk == "multipart"){
+			r.has_body = true; r.boundary = q.gets("boundary","b"); if(r.boundary.empty()) r.boundary = "b"; r.content_type = "multipart/form-data; boundary=" + r.boundary;
+			const J &ps = q.get("parts");
+			for(size_t i=0;i<ps.size() && i<12;i++){ const J &pt = ps.a[i]; Req::Part p; p.name = pt.gets("name","n"); if(p.name.empty()) p.name = "n"; p.quoted = pt.geti("quoted",1); p.has_filename = pt.geti("has_filename"); p.filename = pt.gets("filename"); p.ctype = pt.gets("ctype");
+				p.content = gen_bytes((uint64_t)pt.geti("seed"),(size_t)std::max<int64_t>(0,std::min<int64_t>(pt.geti("len"),1<<20)),(int)pt.geti("fill"));
+				// adversarial look-alikes of the delimiter inside the content
+				std::string delim = "\r\n--" + r.boundary; int la = (int)pt.geti("lookalike");
+				if(la == 1 && !p.content.empty()){ for(size_t k=1;k<delim.size() && k*17 < p.content.size();k++) p.content.replace(k*17,std::min(k,p.content.size()-k*17),delim.substr(0,k).substr(0,std::min(k,p.content.size()-k*17))); }
+				else if(la == 2){ p.content += delim.substr(0,delim.size()-1); }
+				else if(la == 3 && p.content.size() > 8){ p.content.replace(p.content.size()/2,4,"\r\n--"); }
+				// the real delimiter must not occur inside the content
+				size_t f; while((f = p.content.find(delim)) != std::string::npos) p.content[f+2] = '+';
+				r.parts.push_back(p); }
+			r.body = multipart_body(r); }
 		else if(bk == "raw"){ r.has_body = true; r.body = gen_bytes((uint64_t)q.geti("body_seed"),(size_t)std::max<int64_t>(0,std::min<int64_t>(q.geti("body_len"),1<<20)),(int)q.geti("body_fill")); }
 		else r.content_type.clear();
 		return r;
@@ -232,12 +259,12 @@ struct E1 : Engine {
 		simk::Rng r; r.seed(seed);
 		J p = J::obj(); p["engine"] = "E1"; p["prop"] = prop;
 		p["sched_seed"] = (unsigned long long)(r.next() >> 8); p["fault_seed"] = (unsigned long long)(r.next() >> 8);
-		p["strategy"] = (int)r.below(3); p["pct_depth"] = 1 + (int)r.below(3); p["pct_len"] = 200 + (int)r.below(4000); p["tick_us"] = r.below(2) ? 1 : 50;
+		p["strategy"] = (int)r.below(3); p["pct_depth"] = 1 + (int)r.below(3); p["pct_len"] = 200 + (int)r.below(4000); p["tick_us"] = 1;   // byte-dribble runs burn ~1e6 scheduling steps: with a larger tick the simulated duration would exceed http.timeout and the watchdog would (rightly) cut connections
 		static const int bufs[] = {1,7,64,1024,16384,65536};
 		J cfg = J::obj(); cfg["reactor"] = (int)r.below(3); cfg["worker_threads"] = 1 + (int)r.below(3);
 		cfg["output_buffer_size"] = bufs[r.below(6)]; cfg["async_output_buffer_size"] = bufs[r.below(6)]; cfg["input_buffer_size"] = bufs[r.below(6)];
 		cfg["gzip"] = (int)r.below(2); cfg["gzip_level"] = (int)r.below(10) - 1; cfg["gzip_buffer"] = r.below(2) ? 0 : bufs[1 + r.below(5)];
-		cfg["http_timeout"] = 5 + (int)r.below(25);
+		cfg["http_timeout"] = 10 + (int)r.below(20); if(prop == "C12" && r.below(2)){ static const int lk[] = {1,4,16,64,2048}; cfg["content_limit_kb"] = lk[r.below(5)]; cfg["multipart_limit_kb"] = lk[r.below(5)]; } { static const int fm[] = {0,1,100,4096,131072}; cfg["file_in_memory_limit"] = fm[r.below(5)]; }
 		p["cfg"] = cfg;
 		bool faults = r.below(3) == 0;
 		p["p_short_read"] = r.below(2) ? (int)r.below(500) : 0; p["p_short_write"] = r.below(2) ? (int)r.below(500) : 0; p["p_eintr"] = faults ? (int)r.below(40) : 0; p["p_spurious"] = faults ? (int)r.below(80) : 0;
@@ -278,12 +305,12 @@ struct E1 : Engine {
 	// ---- malformed requests (C02): a valid encoding is mutated; "pos" values are taken modulo the length
 	static J gen_mutation(simk::Rng &r,int proto){
 		J m = J::obj(); unsigned x = r.below(100);
-		static const char *generic[] = {"truncate","truncate","flip","insert","delete","garbage","dup_tail"};
+		static const char *generic[] = {"truncate","truncate","flip","insert","delete","garbage","dup_tail","mp_no_final_boundary","mp_bad_part_header","mp_no_name"};
 		static const char *http_m[] = {"cl_negative","cl_huge","cl_nonnumeric","cl_duplicate","cl_bigger","cl_smaller","header_16k","bare_lf","nul_in_header","no_version","bad_uri","no_colon","header_spaces","cl_over_limit"};
 		static const char *scgi_m[] = {"len_bigger","len_smaller","no_comma","no_final_nul","len_nondigit","len_huge","len_negative","cl_negative","cl_bigger","cl_smaller","odd_fields","cl_over_limit"};
 		static const char *fcgi_m[] = {"bad_version","unknown_type","bad_role","params_wrong_id","record_len_lie","pair_len_overflow","stdin_longer","stdin_shorter","get_values","get_values_then_request","abort_request","params_never_closed","stray_record_in_params","cl_negative","begin_short","stdin_before_params","cl_over_limit"};
 		std::string op;
-		if(x < 45) op = generic[r.below(7)];
+		if(x < 45) op = generic[r.below(10)];
 		else if(proto == 0) op = http_m[r.below(14)]; else if(proto == 1) op = scgi_m[r.below(12)]; else op = fcgi_m[r.below(17)];
 		m["op"] = op; m["pos"] = (long long)r.below(1000000); m["n"] = (int)(1 + r.below(8)); m["byte"] = (int)r.below(256); m["len"] = (int)r.below(3000);
 		static const char *afters[] = {"close","halfclose","halfclose","wait"}; m["after"] = afters[r.below(4)];
@@ -304,6 +331,15 @@ struct E1 : Engine {
 		else if(op == "delete"){ w.erase(pos,std::min<size_t>(n,w.size()-pos)); }
 		else if(op == "garbage"){ w = gen_bytes((uint64_t)m.geti("pos"),len,0); }
 		else if(op == "dup_tail"){ w += w.substr(pos); }
+		else if(op == "mp_no_final_boundary" || op == "mp_bad_part_header" || op == "mp_no_name"){
+			Req q2 = q; q2.method = "POST"; q2.has_body = true; q2.boundary = "XbndX"; q2.content_type = "multipart/form-data; boundary=XbndX"; q2.parts.clear(); Req::Part pt; pt.name = "f"; pt.has_filename = true; pt.filename = "a.bin"; pt.ctype = "text/plain"; pt.content = gen_bytes(5,len % 600,1); q2.parts.push_back(pt); pt.name = "g"; pt.ctype = ""; pt.has_filename = false; pt.content = "v"; q2.parts.push_back(pt);
+			std::string b = multipart_body(q2);
+			if(op == "mp_no_final_boundary") b = b.substr(0,b.size() - std::string("--XbndX--\r\n").size());
+			else if(op == "mp_bad_part_header"){ size_t h = b.find("Content-Disposition:"); b.replace(h,20,"Content-Disposition "); }
+			else { size_t h = b.find("form-data;"); b.replace(h,9,"attachment"); }
+			q2.body = b; q2.parts.clear(); q2.boundary.clear();
+			if(proto == 0) w = http_encode(q2,http11,e.keepalive); else w = reencode(cgi_env(q2,proto,http11),b,proto,e);
+			e.must_not_serve = true; }
 		else if(op == "cl_negative"){ if(proto == 0) w = find_replace_header(w,"Content-Length","Content-Length: -" + std::to_string(1 + (len % 5000)) + "\r\n"); else { Req q2 = q; q2.has_body = true; q2.body = "x"; Pairs v = cgi_env(q2,proto,http11); for(auto &kv:v) if(kv.first == "CONTENT_LENGTH") kv.second = "-" + std::to_string(1 + len); e.wire = reencode(v,"x",proto,e); } }
 		else if(op == "cl_huge"){ w = find_replace_header(w,"Content-Length","Content-Length: 99999999999999999999\r\n"); }
 		else if(op == "cl_nonnumeric"){ w = find_replace_header(w,"Content-Length","Content-Length: 12abc\r\n"); }
@@ -395,7 +431,8 @@ struct E1 : Engine {
 		const J &cfg = plan.get("cfg");
 		int rt = (int)(((cfg.geti("reactor") % 3) + 3) % 3);
 		std::vector<std::unique_ptr<Client>> clients;
-		std::string run_exception; int conn_leak = 0;
+		std::string run_exception; int conn_leak = 0; std::string upload_dir;
+		size_t content_limit = (size_t)std::max<int64_t>(1,std::min<int64_t>(plan.get("cfg").geti("content_limit_kb",2048),4096)) * 1024, multipart_limit = (size_t)std::max<int64_t>(1,std::min<int64_t>(plan.get("cfg").geti("multipart_limit_kb",2048),4096)) * 1024;
 		{
 			cppcms::json::value v;
 			v["service"]["list"][0]["api"] = "http"; v["service"]["list"][0]["ip"] = "127.0.0.1"; v["service"]["list"][0]["port"] = 8080;
@@ -409,6 +446,9 @@ struct E1 : Engine {
 			v["cache"]["backend"] = "thread_shared"; v["cache"]["limit"] = 16;
 			v["localization"]["locales"][0] = "C"; v["localization"]["backend"] = "std"; v["logging"]["stderr"] = false; v["logging"]["level"] = "error";
 			v["security"]["content_length_limit"] = 2048; v["security"]["multipart_form_data_limit"] = 2048; v["security"]["display_error_message"] = false;
+			upload_dir = runner::g_scratch + "/up" + std::to_string(getpid()); mkdir(upload_dir.c_str(),0700);
+			v["security"]["uploads_path"] = upload_dir;
+			v["security"]["content_length_limit"] = (int)std::max<int64_t>(1,std::min<int64_t>(cfg.geti("content_limit_kb",2048),4096)); v["security"]["multipart_form_data_limit"] = (int)std::max<int64_t>(1,std::min<int64_t>(cfg.geti("multipart_limit_kb",2048),4096)); v["security"]["file_in_memory_limit"] = (int)std::max<int64_t>(0,std::min<int64_t>(cfg.geti("file_in_memory_limit",128*1024),1<<22));
 			std::unique_ptr<cppcms::service> srv;
 			try {
 				srv.reset(new cppcms::service(v));
@@ -449,8 +489,8 @@ struct E1 : Engine {
 		AW = nullptr;
 		// ------------------------------------------------------------ oracles
 		std::map<std::string,std::string> cache_pages;
-		int n_gzip_empty = 0; int n_bad = 0, n_bad_refused = 0; int n_cache_hits = 0; int n_ex = 0, n_multi_seg = 0, n_body = 0, n_keepalive_followups = 0, n_writer = 0, n_gzip = 0, n_chunked = 0;
-		for(auto &cl:clients){ int port = 8080;
+		int n_over_limit = 0; int n_gzip_empty = 0; int n_bad = 0, n_bad_refused = 0; int n_cache_hits = 0; int n_ex = 0, n_multi_seg = 0, n_body = 0, n_keepalive_followups = 0, n_writer = 0, n_gzip = 0, n_chunked = 0;
+		for(auto &cl:clients){ int port = 8080; bool conn_had_error = false;
 			for(size_t i=0;i<cl->ex.size() && res.ok;i++){ Exchange &e = cl->ex[i]; n_ex++; if(e.seg.size() > 1) n_multi_seg++; if(e.req.has_body && !e.req.body.empty()) n_body++; if(i > 0 && !e.conn_closed_early) n_keepalive_followups++;
 				std::string who = std::string(cl->proto == 0 ? "http" : cl->proto == 1 ? "scgi" : "fastcgi") + " " + e.req.script + " request " + e.tag;
 				if(cl->refused){ res.fail("connection-refused",who + ": nobody listens"); break; }
@@ -465,6 +505,7 @@ struct E1 : Engine {
 					if(e.expect_413 && e.resp.complete && e.resp.framing_error.empty() && e.resp.status != 413 && e.resp.status != 0){ res.fail("wrong-error-status",who + ": declared length above the limit answered with " + std::to_string(e.resp.status) + " instead of 413"); break; }
 					continue; }
 				if(e.timed_out){ res.fail("request-not-answered",who + ": no complete response within " + std::to_string(cl->timeout_us/1000000) + " simulated seconds (sent " + std::to_string(cl->sent) + " of " + std::to_string(e.wire.size()) + " bytes, received " + std::to_string(cl->in.size() + e.raw.size()) + ")"); break; }
+				if(e.conn_closed_early && i > 0 && e.raw.empty() && conn_had_error) continue;   // after an error response the server closes the connection (any protocol)
 				if(e.conn_closed_early && i > 0 && e.raw.empty()){
 					// the server chose not to keep the connection alive: legitimate for HTTP (keep-alive is optional), not for FastCGI KEEP_CONN
 					if(cl->proto == 2){ res.fail("keepalive-connection-dropped",who + ": FastCGI connection with KEEP_CONN was closed before this request was answered"); break; }
@@ -473,6 +514,12 @@ struct E1 : Engine {
 				if(cl->proto == 2){ if(!e.fo.framing_error.empty()){ res.fail("bad-response-framing",who + ": " + e.fo.framing_error); break; } if(!e.fo.end){ res.fail("bad-response-framing",who + ": no END_REQUEST record"); break; } if(!e.fo.empty_stdout_seen && !e.fo.out.empty()){ res.fail("bad-response-framing",who + ": STDOUT stream not closed by an empty record"); break; }
 					if(e.fo.proto_status != 0 || e.fo.app_status != 0){ res.fail("bad-response-framing",who + ": END_REQUEST status " + std::to_string(e.fo.proto_status) + "/" + std::to_string(e.fo.app_status)); break; } }
 				if(!e.resp.complete){ res.fail("request-not-answered",who + ": connection closed without a complete response, raw: " + esc(e.raw.substr(0,200))); break; }
+				bool over = false; if(!e.is_writer && e.req.has_body){ if(!e.req.boundary.empty()){ over = e.req.body.size() > multipart_limit; for(auto &pt:e.req.parts) if(pt.ctype.empty() && pt.content.size() > content_limit) over = true; } else over = e.req.body.size() > content_limit; }
+				if(e.resp.complete && e.resp.status >= 400) conn_had_error = true;
+				if(over){ n_over_limit++; int ent0 = aw.entered.count(e.tag) ? aw.entered[e.tag] : 0;
+					if(e.resp.status != 413){ res.fail("limit-not-enforced",who + ": body of " + std::to_string(e.req.body.size()) + " bytes exceeds the configured limit but was answered with status " + std::to_string(e.resp.status)); break; }
+					if(ent0 != 0){ res.fail("limit-not-enforced",who + ": over-limit request reached the application"); break; }
+					continue; }
 				if(e.resp.status != 200){ res.fail("unexpected-status",who + ": status " + std::to_string(e.resp.status) + " for a well-formed request; body " + esc(e.resp.body.substr(0,200))); break; }
 				int ent = aw.entered.count(e.tag) ? aw.entered[e.tag] : 0;
 				if(ent != 1){ res.fail(ent == 0 ? "handler-not-entered" : "handler-entered-twice",who + ": main() entered " + std::to_string(ent) + " times"); break; }
@@ -482,7 +529,7 @@ struct E1 : Engine {
 				if(e.resp.chunked) n_chunked++;
 				if(!e.is_writer){
 					Expect x = expect(e.req,cl->proto,e.http11,cl->proto == 0 && e.keepalive,port);
-					std::string want = echo_text(x.env,x.get,x.post,x.cookies,x.body,std::vector<std::string>());
+					std::string want = echo_text(x.env,x.get,x.post,x.cookies,x.body,x.files);
 					if(body != want){ res.fail("request-misdelivered",who + ": the application observed a different request. " + first_diff(body,want)); break; }
 				} else { n_writer++;
 					std::string want = script_body(normalise_script(e.script),e.salt); const J *ck = nullptr; (void)ck;
@@ -502,10 +549,12 @@ struct E1 : Engine {
 						if(t[0] == 'c'){ bool found = false; for(auto &h:e.resp.headers) if(lower(h.first) == "set-cookie" && h.second.find("ck" + std::to_string(n) + "=cv" + std::to_string(n*3)) != std::string::npos) found = true; if(!found){ res.fail("response-header-missing",who + ": cookie ck" + std::to_string(n) + " set by the application is missing"); break; } } }
 				}
 			} }
+		if(!upload_dir.empty()){ std::string left; if(DIR *d = opendir(upload_dir.c_str())){ while(struct dirent *de = readdir(d)){ if(de->d_name[0] != '.'){ left += std::string(" ") + de->d_name; std::string f = upload_dir + "/" + de->d_name; unlink(f.c_str()); } } closedir(d); } rmdir(upload_dir.c_str());
+			if(res.ok && !left.empty()) res.fail("upload-temp-file-left","temporary upload files survived their requests:" + left); }
 		if(res.ok && conn_leak) res.fail("connection-not-released",std::to_string(conn_leak) + " accepted connections were still open after every peer had gone and the longest time-out had passed");
 		if(res.ok && leaked) res.fail("descriptor-leak",std::to_string(leaked) + " simulated descriptors still open after the service was destroyed");
 		if(res.ok && !aw.exception.empty()) res.fail("exception-escaped",aw.exception);
-		res.counters["gzip_announced_empty_body"] = n_gzip_empty; res.counters["malformed_exchanges"] = n_bad; res.counters["malformed_refused_as_required"] = n_bad_refused; res.counters["page_cache_hits"] = n_cache_hits; res.counters["exchanges"] = n_ex; res.counters["multi_segment_requests"] = n_multi_seg; res.counters["requests_with_body"] = n_body; res.counters["keepalive_followups"] = n_keepalive_followups; res.counters["writer_responses"] = n_writer; res.counters["gzip_responses"] = n_gzip; res.counters["chunked_responses"] = n_chunked;
+		res.counters["over_limit_413"] = n_over_limit; res.counters["gzip_announced_empty_body"] = n_gzip_empty; res.counters["malformed_exchanges"] = n_bad; res.counters["malformed_refused_as_required"] = n_bad_refused; res.counters["page_cache_hits"] = n_cache_hits; res.counters["exchanges"] = n_ex; res.counters["multi_segment_requests"] = n_multi_seg; res.counters["requests_with_body"] = n_body; res.counters["keepalive_followups"] = n_keepalive_followups; res.counters["writer_responses"] = n_writer; res.counters["gzip_responses"] = n_gzip; res.counters["chunked_responses"] = n_chunked;
 		res.counters["steps"] = (long long)st.steps; res.counters["switches"] = (long long)st.switches; res.counters["short_reads"] = (long long)st.short_reads; res.counters["short_writes"] = (long long)st.short_writes; res.counters["eagain"] = (long long)(st.eagain_r + st.eagain_w);
 		res.counters["eintr"] = (long long)st.eintr; res.counters["spurious_wakeups"] = (long long)st.spurious; res.counters["accepts"] = (long long)st.accepts; res.counters["bytes_to_server"] = (long long)st.bytes_rx; res.counters["bytes_to_client"] = (long long)st.bytes_tx;
 		res.counters["sim_seconds"] = 0; res.counters[rt == 0 ? "reactor_epoll" : rt == 1 ? "reactor_poll" : "reactor_select"] = 1;
